@@ -32,16 +32,17 @@ def digest (p : Peer) : String :=
   s!"r=[{joinWith "," (p.requests.requested.map reqStr)}] rb={bmStr p.rbitmap} " ++
   s!"my={payloadStr p.myBitmap} seed={boolStr p.isSeed} reqq={p.reqQ} " ++
   s!"fast=[{joinWith "," (p.fast.map toString)}] si={boolStr p.shouldInterested} " ++
-  s!"ai={boolStr p.amInterested} px={p.pexExt} dh={p.dontHaveExt} wl={p.wlen} " ++
+  s!"ai={boolStr p.amInterested} px={p.pexExt} dh={p.dontHaveExt} wl={p.wq.length} " ++
   s!"pex={peersStr p.pex.pending}/{peersStr p.pex.pendingDel}/{peersStr p.pex.sent} " ++
   s!"info={boolStr p.hasInfo}"
 
 def resStr : PeerOut.Res → String
   | .ok => "ok" | .err => "err" | .panic => "panic" | .dead => "dead"
 
-def obs (p : Peer) (o : PeerOut.Out) : String :=
+def obs (isDrain : Bool) (p : Peer) (o : PeerOut.Out) : String :=
   s!"{resStr o.res} out=[{joinWith "|" (o.emits.map (fun e => canon e.msg))}] " ++
-  s!"drops=[{joinWith "," (o.drops.map (fun d => s!"{d.1}:{d.2}"))}] " ++ digest p
+  s!"drops=[{joinWith "," (o.drops.map (fun d => s!"{d.1}:{d.2}"))}] " ++
+  (if isDrain then s!"drained=[{joinWith "|" (o.drained.map canon)}] " else "") ++ digest p
 
 def parseOp (ws : List String) : Option PeerOut.Op :=
   match ws with
@@ -77,7 +78,10 @@ def parseOp (ws : List String) : Option PeerOut.Op :=
     let r ← kvVal "rto" rto
     pure (.expire (← r.toNat?) (← kOf k))
   | ["t", "sendpex"] => some .sendPex
-  | ["x", "age", d] => d.toNat?.map .age
+  | ["x", "age", d] => do
+    let d ← d.toNat?
+    -- the harness's virtual clock advances in multiples of 10 s
+    if d % 10000 != 0 then none else pure (.age d)
   | ["x", "drain", k] => k.toNat?.map .drain
   | ["x", "wblock", b] => (bool? b).map .wblock
   | _ => none
@@ -154,7 +158,7 @@ def step (s : Option Peer) (ws : List String) : Option Peer × String :=
     | some p, some op =>
       if !opOk op then (s, "bad-op") else
       let (p', o) := PeerOut.step p op
-      (some p', obs p' o)
+      (some p', obs (match op with | .drain _ => true | _ => false) p' o)
     | _, _ => (s, "bad-op")
 
 end Storrent.Drive.C11
